@@ -121,6 +121,20 @@ CHECKS = {
         technique="TLC trace validation of real runs (relational report invariants) + JSON-schema validation",
         engine="tlc-gen+trace",
     ),
+    "C10": dict(
+        category="fault_enumeration",
+        text="Faults.tla enumerates every placement of one fault (thorough: also two) of every kind (invalid UTF-8, NUL, syntax error, "
+        "empty file, file vanishing mid-run, transformer raising on a file, raising at the n-th visited node) x codemod x file for "
+        "three pipeline kinds (detector-less, rule-detected with the real semgrep, Sonar-driven) and derives which steps must be "
+        "reported failed and which bytes must stay; each faulty run is paired with its fault-free twin; Trace_Run checks the faulty "
+        "trace (failed file untouched and listed, findings unfixed, no exception escapes, report built, exit 0) and Compare events "
+        "check that all other files and results equal the twin's. MC_Run checks C10_FailedUntouched and termination on the design.",
+        design_ref="DESIGN.md §5 C10",
+        note="Trusted: TLC, the fault injectors of harness/launcher.py (environment steps are explicit EnvChange events in the trace). "
+        "Faults inside semgrep itself are not injected.",
+        technique="TLC-enumerated fault placements replayed into the code + TLC trace validation + differential twin runs",
+        engine="tlc-gen+trace",
+    ),
 }
 
 NOT_APPLICABLE: list[dict] = []
